@@ -1,9 +1,10 @@
 #!/bin/bash
-# usage: tools/seeded_confirm.sh <property> <n>   (uses /tmp/mut/<property>/deliver/mut<n>.diff, demo<n>.rs)
+# usage: tools/seeded_confirm.sh <property> <n> [<id-number>]  (uses /tmp/mut/<property>/deliver/mut<n>.diff, demo<n>.rs;
+# files the change as seeded/<property>-<id-number>, default <n>)
 # Confirms in the scratch worktree: patch applies, existing tests pass with it, demo fails with it,
 # demo passes without it; then files the mutation under /verif/seeded/<property>-<n>/.
 set -u
-P=$1; N=$2; D=/tmp/mut/$P
+P=$1; N=$2; O=${3:-$2}; D=/tmp/mut/$P
 cd $D || exit 2
 git checkout -q -- . ; rm -f tests/seeded_demo.rs
 git apply --check deliver/mut$N.diff || { echo "patch does not apply"; exit 2; }
@@ -23,7 +24,7 @@ echo "demo without change: $without"
 ok=0
 echo "$with" | grep -q "FAILED" && echo "$without" | grep -q "test result: ok" && [ "$exist_fail" = "0" ] && ok=1
 if [ $ok = 1 ]; then
-  T=/verif/seeded/$P-$N; mkdir -p $T
+  T=/verif/seeded/$P-$O; mkdir -p $T
   cp deliver/mut$N.diff $T/patch.diff; cp deliver/demo$N.rs $T/demo.rs
   [ -f deliver/NOTES.md ] && cp deliver/NOTES.md $T/NOTES.md
   echo "CONFIRMED -> $T"
